@@ -33,7 +33,7 @@ pub fn def() -> PropDef {
     }
 }
 
-fn edit_bytes(t: &mut Tape, bytes: &mut Vec<u8>) -> &'static str {
+pub fn edit_bytes(t: &mut Tape, bytes: &mut Vec<u8>) -> &'static str {
     if bytes.is_empty() {
         bytes.extend(t.bytes(3));
         return "filled";
